@@ -76,7 +76,15 @@ EACH = {
     '{+/x}': ('over', '+', X),
     '{|x}': ('rev', X),
 }
+# functions whose result KIND depends on the member: the collected list mixes integer and real
+# members (kg_asarray of separately computed tensors).  Conditionals are not in the Lean grammar:
+# these programs are judged by the oracle only.
+EACH_MIXED = ['{:[x=3;x%2;x]}', '{:[x>2;x;x%2]}', '{:[x=2;_x%2;x%2]}', '{:[x=3;1.5;x]}', '{:[x<2;x;:[x>3;x;x%2]]}']
 VARS = {'a': 0, 'b': 1, 'c': 2, 'x': 3}
+
+
+class Unmodelled(Exception):
+    pass
 
 LEAVES = ([('var', 'a'), ('var', 'b'), ('var', 'c')]
           + [('lit', U.I(n)) for n in (0, 1, 2, -1, 3)]
@@ -153,6 +161,8 @@ def wire(e):
     if k in ('over', 'scan'):
         return f"({k} {OPNAME[e[1]]} {wire(e[2])})"
     if k == 'each':
+        if e[1] not in EACH:
+            raise Unmodelled(e[1])
         return f"(each {wire(EACH[e[1]])} {wire(e[2])})"
     if k in ('take', 'drop'):
         return f"({k} {e[1]} {wire(e[2])})"
@@ -242,7 +252,7 @@ def gen(rng, d):
     if r < 0.76:
         return ('scan', rng.choice(ADV), gen(rng, d - 1))
     if r < 0.82:
-        return ('each', rng.choice(list(EACH)), gen(rng, d - 1))
+        return ('each', rng.choice(list(EACH) + EACH_MIXED), gen(rng, d - 1))
     if r < 0.87:
         return ('at', gen(rng, d - 1), rng.choice(IDX))
     if r < 0.90:
@@ -264,6 +274,70 @@ def depth1_programs():
     out += [('at', a, i) for i in IDX]
     out += [('take', n, a) for n in TAKES] + [('drop', n, a) for n in DROPS]
     return out
+
+
+def compilable_over_scan_programs():
+    """f/ and f\\ applied DIRECTLY to an expression the compiler handles (a variable, a dyad of
+    variables / a literal, Negate) — the shapes for which both backends generate code"""
+    a, b = ('var', 'a'), ('var', 'b')
+    inner = [a, ('neg', a)]
+    for op in DY:
+        inner += [('dy', op, a, b), ('dy', op, a, ('lit', U.I(3))), ('dy', op, ('lit', U.R(2.5)), a)]
+    for adv in ('over', 'scan'):
+        for op in ADV:
+            for i in inner:
+                yield (adv, op, i)
+
+
+# array operands for the compiled shapes: every rank, both kinds
+ARRAY_BINDINGS = [
+    (U.from_py([[1, 2, 3], [4, 5, 6]]), U.from_py([[3, 3, 3], [1, 9, 2]])),
+    (U.from_py([[0.5, 1.5], [2.5, 3.5], [4.0, 0.25]]), U.from_py([[1.5, 1.5], [2.0, 0.5], [4.0, 8.0]])),
+    (U.from_py([[[1, 2], [3, 4]], [[5, 6], [7, 8]]]), U.from_py([[[2, 2], [2, 2]], [[6, 6], [6, 6]]])),
+    (U.from_py([2, 9, 4, 1]), U.from_py([3, 3, 5, 1])),
+    (U.from_py([[5, -3, 2], [4, 1, 7], [2, 2, 1]]), U.I(2)),
+]
+
+# long lists of large members: every member and every partial result is an ordinary number
+# (< 2^31, within float32 range) but products / sums of the members are not
+LARGE_BINDINGS = [
+    U.from_py([2000000000] + [1000] * 7),
+    U.from_py([1e20] + [1e6] * 7),
+    U.from_py([[2000000000, 7], [1000, 1], [1000, 1], [1000, 1], [1000, 1], [1000, 1], [1000, 1], [1000, 1]]),
+    U.from_py([1000] * 8),
+    U.from_py([65536.0, 65536.0, 65536.0, 65536.0, 65536.0, 65536.0, 65536.0, 65536.0, 0.5]),
+    U.from_py([1000000007, 999999937, 998244353, 3]),
+]
+
+
+def deterministic_classes(S):
+    """classes of programs that every run evaluates, whatever the seed"""
+    z = U.I(0)
+    # (1) compiled shapes x array operands, as variables and as literals
+    for va, vb in ARRAY_BINDINGS:
+        env = dict(a=va, b=vb, c=z)
+        for e in compilable_over_scan_programs():
+            S.one(e, env, 'var', label="compilable")
+            S.one(e, env, 'inline', label="compilable")
+    # (2) every reduction / scan / monad over long lists of large members
+    a = ('var', 'a')
+    progs = [(adv, op, a) for adv in ('over', 'scan') for op in ADV] + [('neg', a), ('floor', a), ('rev', a)] \
+        + [('each', f, a) for f in EACH] + [('dy', op, a, a) for op in '+-*%&|=<>']
+    for v in LARGE_BINDINGS:
+        env = dict(a=v, b=z, c=z)
+        for e in progs:
+            S.one(e, env, 'inline', label="large-operands")
+            S.one(e, env, 'var', label="large-operands")
+    # (3) lists collected member by member whose members differ in kind
+    mixed = [('each', f, a) for f in EACH_MIXED] \
+        + [(k, op, ('each', f, a)) for f in EACH_MIXED for k, op in (('over', '+'), ('scan', '+'), ('over', '|'))] \
+        + [('rev', ('each', f, a)) for f in EACH_MIXED] \
+        + [('at', ('each', f, a), ('lit', U.from_py([0, 2, 3]))) for f in EACH_MIXED]
+    for v in ([1, 2, 3, 4], [4, 3, 2, 1], [3, 1, 3], [1, 3], [3], [2, 3, 4, 5, 1], [0, 1, 2, 3, 4, 5]):
+        env = dict(a=U.from_py(v), b=z, c=z)
+        for e in mixed:
+            S.one(e, env, 'inline', label="mixed-kind-members")
+            S.one(e, env, 'var', label="mixed-kind-members")
 
 
 def gen_env(rng):
@@ -447,16 +521,26 @@ class Searcher:
             return self.P.run(src(e))
         return self.P.run(src(subst(e, env)))
 
+    ADDITIVE_EACH = ('{x+1}', '{2-x}', '{+/x}')
+
     def magnitude(self, e, env):
-        """(largest |integer|, largest |real|, smallest non-zero |real|) among all intermediate
-        values, both backends, interpreted"""
-        mi, mr, tiny = 1, 1.0, 1.0
+        """(largest |integer|, largest |real|, smallest non-zero |real|, largest magnitude that
+        enters or leaves an ADDITION or SUBTRACTION) among all intermediate values, both backends,
+        interpreted.  Only sums and differences can cancel, so only their operands justify an
+        absolute allowance for float32 rounding."""
+        mi, mr, tiny, madd = 1, 1.0, 1.0, 0.0
+        kid_mag = 0.0
         for c in children(e):
-            x, y, z = self.magnitude(c, env)
-            mi, mr, tiny = max(mi, x), max(mr, y), min(tiny, z)
+            x, y, z, w = self.magnitude(c, env)
+            mi, mr, tiny, madd = max(mi, x), max(mr, y), min(tiny, z), max(madd, w)
+            for r in self.run_expr(c, env, 'inline'):
+                if r[0] == 'ok':
+                    kid_mag = max(kid_mag, max_mag(r[1]))
+        own = 0.0
         for r in self.run_expr(e, env, 'inline'):
             if r[0] != 'ok':
                 continue
+            own = max(own, max_mag(r[1]))
             for l in leaves(r[1]):
                 if l[0] == 'i':
                     mi = max(mi, abs(l[1]))
@@ -464,7 +548,10 @@ class Searcher:
                     mr = max(mr, abs(l[1]))
                     if l[1] != 0:
                         tiny = min(tiny, abs(l[1]))
-        return mi, mr, tiny
+        additive = (e[0] in ('dy', 'over', 'scan') and e[1] in '+-') or (e[0] == 'each' and e[1] in self.ADDITIVE_EACH)
+        if additive:
+            madd = max(madd, kid_mag, own)
+        return mi, mr, tiny, madd
 
     def deviates(self, a, b, atol=0.0):
         """a, b = run1 outcomes; returns None / (what, detail); both-return only"""
@@ -542,11 +629,11 @@ class Searcher:
         if any(l[0] == 'X' for l in leaves(a[1])) or any(l[0] == 'X' for l in leaves(b[1])):
             ctx.bump("skipped:non-numeric-result")          # complex numbers, functions, …
             return None
-        mi, mr, tiny = self.magnitude(e, env)
+        mi, mr, tiny, madd = self.magnitude(e, env)
         if mi >= 2 ** 31 or mr >= 1e30 or tiny <= 1e-30:
             ctx.bump("skipped:magnitude-outside-the-universe")   # int64 wrap-around, float32 range
             return None
-        atol = RTOL * max(mi, mr)
+        atol = RTOL * madd
         if self.deviates(a, b, atol) is None:
             ctx.bump("tolerated:rounding-after-cancellation")
             return None
@@ -594,6 +681,11 @@ class Searcher:
     # -- model
     def model(self, e, env):
         if self.drv is None:
+            return None
+        try:
+            wire(e)
+        except Unmodelled:
+            self.ctx.bump("model:not-in-the-lean-grammar")
             return None
         line = f"eval {wire(e)} | " + " ".join(U.to_wire(env[n]) for n in 'abc')
         r = self.drv.ask(line)
@@ -645,6 +737,9 @@ class Searcher:
         if tag == 'ok':
             want = U.from_wire(mres[3:])
             if vkind(want) == 'empty' and vkind(got) == 'empty':
+                return
+            if any(l[0] == 'i' and abs(l[1]) >= 2 ** 31 for l in leaves(want)):
+                ctx.bump("model:integer-beyond-2^31")      # the model's integers are unbounded, int64 wraps
                 return
             if compare(want, got, 0.0) is not None or vkind(got) not in ('int', 'empty'):
                 ctx.mismatch(where, case, mres, _show(got))
@@ -706,7 +801,9 @@ class Searcher:
         if mode == 'inline' and self.drv is not None:
             self._cur = (e, env)
             m = self.model(e, env)
-            if m[0] == 'bad':
+            if m is None:
+                pass
+            elif m[0] == 'bad':
                 ctx.mismatch("kd_c08 protocol", case, m[1], "")
             else:
                 mn, mt, _ = m
@@ -1116,6 +1213,8 @@ def run(ctx):
                 c = json.loads(p.read_text())
                 S.one(from_json(c["expr"]), {n: U.from_wire(t) for n, t in c["env"].items()}, c.get("mode", "inline"),
                       label="corpus")
+        # 0b. classes evaluated on every run (not sampled)
+        deterministic_classes(S)
         # 1. the code generators accept everything the compiler emits
         acceptance(ctx, pair)
         # 1b. structural dyads with empty operands of every provenance (kinds survive a Join)
